@@ -146,6 +146,7 @@ type Interp struct {
 	allowUserInit map[string]bool
 	methodExprs map[*ssa.Function]*FuncV
 	syncMaps    map[*Value]*MapV // state of sync.Map values, by address
+	synthByName map[string]*ssa.Function
 	extraFuncs []*FuncV
 	symStrHooks map[string]symStrHook
 	xWanted    int
